@@ -61,10 +61,17 @@ package common
 //@   ensures[progress] r.size >= 2 ==> len(r.items) < len(old(r.items)) || len(old(r.items)) == 0
 //@   aux[half]       len(r.items) == len(old(r.items)) - r.size/2
 
+// IsMedianOf: m lies between the two middle order statistics of input (it is the middle one for an odd
+// length) whenever those lie in [-2^62, 2^62-1]; s is the sorted rearrangement witnessing it. Opaque for
+// callers (they only need that Median returns an IsMedianOf value); revealed in Median's own proof.
+//@ ghost opaque func IsMedianOf(input []int64, m int64) bool { return exists s []int64 :: __sorted(s) && __perm(s, input) && (forall lo int64, hi int64 :: len(input) > 0 && lo <= s[(len(input)-1)/2] && s[len(input)/2] <= hi && -4611686018427387904 <= lo && hi <= 4611686018427387903 ==> lo <= m && m <= hi) }
+
 //@ func Median(input []int64) (median int64)
 //@   ints wrap
 //@   safety on
+//@   reveal IsMedianOf
 //@   modifies nothing
+//@   ensures[median]          IsMedianOf(input, median)
 //@   ensures[sorted-copy]     __sorted(s) && __perm(s, input) && l == len(input)
 //@   ensures[between-middles] forall lo int64, hi int64 :: len(input) > 0 && lo <= s[(len(input)-1)/2] && s[len(input)/2] <= hi && -4611686018427387904 <= lo && hi <= 4611686018427387903 ==> lo <= median && median <= hi
 //@   aux[empty] len(input) == 0 ==> median == 0
